@@ -1,7 +1,421 @@
-//! C29 — not implemented yet.
-use vmon::report::Args;
+//! C29 — statistics-based pruning is conservative.
+//!
+//! Legacy-format tables (the only scan path that prunes pages by recorded min / max / null-count
+//! statistics). (i) every predicate is scanned with use_stats(true) and use_stats(false): the two
+//! results must be equal (and equal the reference over the stored table); (ii) the recorded page
+//! statistics are read back through `lance_file::previous::reader::FileReader::read_page_stats`
+//! and must bound the page data (min <= v <= max for non-null, non-NaN v; exact null counts).
+//! The zone-map path of the property is exercised by C20.
 
-pub fn run(_args: &Args) -> i32 {
-    eprintln!("HARNESS-ERROR C29 not implemented");
-    2
+use crate::c16::{judge, legacy_stats_sig, reference, Expected, RefOutcome};
+use crate::core::*;
+use arrow_array::cast::AsArray;
+use arrow_array::{Array, ArrayRef, LargeStringArray, RecordBatch, StringArray};
+use lance_encoding::version::LanceFileVersion;
+use lance_file::previous::reader::FileReader;
+use serde_json::json;
+use std::collections::{BTreeMap, BTreeSet};
+use std::sync::atomic::{AtomicU64, Ordering as AO};
+use std::sync::Arc;
+use vmon::prng::{fnv_str, Rng};
+use vmon::report::{Args, Report};
+use vmon::table::IdAlloc;
+
+pub const NULL_PAGE_SIG: &str = "legacy-stats-pruning-misjudges-null-rows-of-single-valued-page";
+
+/// Strings around the 64-byte truncation limit of the legacy string statistics: shared long
+/// prefixes (ASCII and multi-byte), values that differ only after the limit, maximal code points.
+fn long_string(rng: &mut Rng) -> String {
+    let prefix = match rng.below(13) {
+        0..=3 => "p".repeat(64),
+        4..=7 => "é".repeat(32),            // 64 bytes
+        8..=11 => format!("{}日", "q".repeat(62)), // multi-byte char straddles the limit
+        _ => "\u{10FFFF}".repeat(16),   // 64 bytes of maximal code points (the legacy writer panics on these)
+    };
+    let suffix = *rng.pick(&["", "a", "b", "zz", "é", "\u{10FFFF}", "0", "aa"]);
+    match rng.below(6) {
+        0 => prefix.chars().take(rng.urange(1, 20)).collect(),
+        _ => format!("{prefix}{suffix}"),
+    }
+}
+
+fn with_long_strings(rng: &mut Rng, spec: &TableSpec, b: &RecordBatch, long_cols: &[usize]) -> RecordBatch {
+    let mut cols: Vec<ArrayRef> = b.columns().to_vec();
+    for ci in long_cols {
+        let c = &spec.cols[*ci];
+        let a = &cols[*ci + 1];
+        let n = a.len();
+        let vals: Vec<Option<String>> = (0..n)
+            .map(|j| {
+                if a.is_null(j) {
+                    None
+                } else if rng.chance(2, 3) {
+                    Some(long_string(rng))
+                } else {
+                    Some(match c.ty {
+                        ColTy::Utf8 => a.as_string::<i32>().value(j).to_string(),
+                        _ => a.as_string::<i64>().value(j).to_string(),
+                    })
+                }
+            })
+            .collect();
+        cols[*ci + 1] = match c.ty {
+            ColTy::Utf8 => Arc::new(StringArray::from(vals)) as ArrayRef,
+            _ => Arc::new(LargeStringArray::from(vals)) as ArrayRef,
+        };
+    }
+    RecordBatch::try_new(b.schema(), cols).unwrap()
+}
+
+/// Check the recorded page statistics of every data file against the page contents.
+/// Returns (pages checked, violations as (signature, description)).
+async fn check_page_stats(ds: &lance::Dataset, m: &Model) -> Result<(u64, Vec<(String, String)>), String> {
+    let mut pages = 0u64;
+    let mut bad = vec![];
+    let schema = ds.schema().clone();
+    for frag in ds.get_fragments() {
+        for df in &frag.metadata().files {
+            let path = ds.data_dir().child(df.path.as_str());
+            let reader = FileReader::try_new_with_fragment_id(
+                ds.object_store(),
+                &path,
+                schema.clone(),
+                frag.id() as u32,
+                0,
+                schema.max_field_id().unwrap_or_default(),
+                None,
+            )
+            .await
+            .map_err(|e| format!("open legacy file: {e}"))?;
+            let field_ids: Vec<i32> = schema.fields.iter().map(|f| f.id).collect();
+            let stats = match reader.read_page_stats(&field_ids).await.map_err(|e| format!("read_page_stats: {e}"))? {
+                Some(s) => s,
+                None => continue,
+            };
+            for batch_id in 0..reader.num_batches() {
+                let data = reader
+                    .read_batch(batch_id as i32, lance_io::ReadBatchParams::RangeFull, &schema)
+                    .await
+                    .map_err(|e| format!("read_batch: {e}"))?;
+                pages += 1;
+                for f in &schema.fields {
+                    let Some(col_stats) = stats.column_by_name(&f.id.to_string()) else { continue };
+                    let st = col_stats.as_struct();
+                    let (Some(nulls), Some(mins), Some(maxs)) =
+                        (st.column_by_name("null_count"), st.column_by_name("min_value"), st.column_by_name("max_value"))
+                    else {
+                        continue;
+                    };
+                    let Some(ci) = m.col_index(&f.name) else { continue };
+                    let ty = &m.cols[ci].ty;
+                    let Some(arr) = data.column_by_name(&f.name) else { continue };
+                    let null_count = cell_at(nulls.as_ref(), batch_id);
+                    let actual_nulls = arr.null_count() as i128;
+                    if null_count != Cell::Int(actual_nulls) {
+                        bad.push((
+                            "page-stats-null-count-wrong".to_string(),
+                            format!("field {} page {batch_id}: recorded null_count {} actual {actual_nulls}", f.name, null_count.render()),
+                        ));
+                    }
+                    let min = cell_at(mins.as_ref(), batch_id);
+                    let max = cell_at(maxs.as_ref(), batch_id);
+                    if std::env::var("VERIF_DEBUG").is_ok() {
+                        eprintln!(
+                            "STATS frag {} page {batch_id} field {}: rows {} recorded_nulls {} actual_nulls {actual_nulls} min {} max {}",
+                            frag.id(), f.name, arr.len(), null_count.render(), min.render().chars().take(20).collect::<String>(), max.render().chars().take(20).collect::<String>()
+                        );
+                    }
+                    for i in 0..arr.len() {
+                        let v = cell_at(arr.as_ref(), i);
+                        if v.is_null() || matches!(&v, Cell::Float(x) if x.is_nan()) {
+                            continue;
+                        }
+                        if !min.is_null() && cmp_cells(ty, &min, &v) == Some(std::cmp::Ordering::Greater) {
+                            bad.push((
+                                "page-stats-min-greater-than-value".to_string(),
+                                format!("field {} page {batch_id}: min {} > value {}", f.name, min.render(), v.render()),
+                            ));
+                            break;
+                        }
+                        if !max.is_null() && cmp_cells(ty, &max, &v) == Some(std::cmp::Ordering::Less) {
+                            bad.push((
+                                "page-stats-max-less-than-value".to_string(),
+                                format!("field {} page {batch_id}: max {} < value {}", f.name, max.render(), v.render()),
+                            ));
+                            break;
+                        }
+                    }
+                }
+            }
+        }
+    }
+    Ok((pages, bad))
+}
+
+pub fn run(args: &Args) -> i32 {
+    let selftest = args.extra.contains_key("selftest");
+    let report = Report::new(
+        args,
+        "exploration",
+        "case = (legacy-format table with boundary values: NaN, ±0, ±inf, NULL strings, empty / unicode / >64-byte strings; small row groups; random comparison predicates); \
+         each predicate is scanned with use_stats(true) and use_stats(false) and compared with the reference over the stored table; recorded page statistics are checked against page contents. \
+         distinct = hash(column types, predicate shape); non-trivial = the table has >= 2 pages and the predicate selects neither 0 nor all rows",
+        (70, 900),
+    )
+    .with_min_nontrivial(20);
+    let threads = n_threads();
+    let max_cases: u64 = args.tier.pick(3000, 300_000);
+    let preds_per_table = args.tier.pick(30, 80);
+    let max_rows = args.tier.pick(300, 1500);
+    let next = AtomicU64::new(0);
+    let only_case: Option<u64> = args.extra.get("case").and_then(|s| s.parse().ok());
+    let st_fired = AtomicU64::new(0);
+    let st_total = AtomicU64::new(0);
+
+    run_threads(threads, |_t, rt| loop {
+        let mut case = next.fetch_add(1, AO::Relaxed);
+        if let Some(c) = only_case {
+            if case > 0 {
+                break;
+            }
+            case = c;
+        }
+        if case >= max_cases || !report.time_left() {
+            break;
+        }
+        let mut rng = Rng::for_case(args.seed, case);
+        rt.block_on(async {
+            // ---- table: value columns biased to floats and strings
+            let pool = vec![
+                ColTy::F32, ColTy::F64, ColTy::F64, ColTy::Utf8, ColTy::LargeUtf8, ColTy::Utf8, ColTy::I8, ColTy::I32, ColTy::I64, ColTy::U8,
+                ColTy::U64, ColTy::Date32, ColTy::TsMicro, ColTy::Bool,
+            ];
+            let ncols = rng.urange(1, 4);
+            let mut spec = random_spec(&mut rng, &pool, ncols);
+            for c in spec.cols.iter_mut() {
+                match class_of(&c.ty) {
+                    // the legacy format stores NULLs of fixed-width columns as 0: only strings are nullable here
+                    Class::Str => {}
+                    _ => c.nullable = false,
+                }
+                if class_of(&c.ty) == Class::Float {
+                    c.small_domain = rng.chance(1, 3);
+                }
+            }
+            let long_cols: Vec<usize> =
+                spec.cols.iter().enumerate().filter(|(_, c)| class_of(&c.ty) == Class::Str && rng.chance(1, 2)).map(|(i, _)| i).collect();
+            let nfrag = rng.urange(1, 3);
+            let total = rng.urange(12, max_rows);
+            let mut ids = IdAlloc::new(0);
+            let mut model = Model::new(&spec);
+            let mut frags = vec![];
+            for _ in 0..nfrag {
+                let b = spec.batch(&mut rng, &ids.take((total / nfrag).max(2)));
+                let b = with_long_strings(&mut rng, &spec, &b, &long_cols);
+                let b = crate::c16::legacy_safe(&spec, &b);
+                model.insert_batch(&b);
+                frags.push(b);
+            }
+            let mrpg = *rng.pick(&[2usize, 3, 5, 8, 16, 50, 1024]);
+            let uri = unique_uri("c29");
+            let ds = match guarded(write_table(&uri, &frags, LanceFileVersion::Legacy, None, Some(mrpg), false)).await {
+                Ok(d) => d,
+                Err(ScanErr::Failed(e)) if e.contains("max_value") || e.contains("min_value") => {
+                    // side finding (not a pruning matter): the legacy writer panics when a string page's
+                    // truncated max bound cannot be incremented (64 bytes of U+10FFFF + more): the
+                    // statistics struct gets a NULL in a non-nullable field. Counted, case skipped.
+                    report.count("legacy_writer_panics_on_unincrementable_string_bound", 1);
+                    if report.counter("legacy_writer_panics_on_unincrementable_string_bound") <= 1 {
+                        report.sample(json!({"legacy_writer_panic": e.chars().take(240).collect::<String>(), "table": spec.describe()}));
+                    }
+                    return;
+                }
+                Err(e) => {
+                    report.harness_error(&format!("case {case}: write: {e:?}"));
+                    return;
+                }
+            };
+            let pages: usize = frags.iter().map(|f| f.num_rows().div_ceil(mrpg)).sum();
+            // stored table = model (legacy cannot tell "" from NULL etc.; see NOTES)
+            let out = match run_scan(&ds, &Query::default(), &Knobs { use_stats: Some(false), ..Default::default() }).await {
+                Ok(o) => o,
+                Err(e) => {
+                    report.harness_error(&format!("case {case}: readback: {e:?}"));
+                    return;
+                }
+            };
+            let written = model.rows.clone();
+            let mut stored = BTreeMap::new();
+            for r in &out.rows {
+                if let Some(id) = r[0].as_i64() {
+                    stored.insert(id, r.clone());
+                }
+            }
+            if !stored.keys().eq(written.keys()) {
+                report.violation(
+                    "legacy-unfiltered-scan-loses-or-adds-rows",
+                    &format!("unfiltered scan returned {} rows, wrote {}", stored.len(), written.len()),
+                    json!({"seed": args.seed, "case": case, "table": spec.describe()}),
+                );
+                return;
+            }
+            let changed = stored.iter().filter(|(k, v)| &written[*k] != *v).count();
+            report.count("stored_rows_differing_from_written", changed as u64);
+            model.rows = stored;
+            let m = &model;
+            let table_desc = format!("rows={} frags={} pages={} max_rows_per_group={} [{}] long_string_cols={:?}", m.len(), nfrag, pages, mrpg, spec.describe(), long_cols);
+            report.count("tables", 1);
+            report.count("pages", pages as u64);
+            // ---- (ii) recorded statistics bound the data
+            let stats_res = {
+                use futures::FutureExt;
+                match std::panic::AssertUnwindSafe(check_page_stats(&ds, m)).catch_unwind().await {
+                    Ok(r) => r,
+                    Err(p) => Err(format!(
+                        "panic while reading page statistics: {}",
+                        p.downcast_ref::<String>().cloned().or_else(|| p.downcast_ref::<&str>().map(|s| s.to_string())).unwrap_or_default()
+                    )),
+                }
+            };
+            match stats_res {
+                Ok((n, bad)) => {
+                    report.count("pages_stats_checked", n);
+                    if !selftest {
+                        for (sig, what) in bad.into_iter().take(3) {
+                            report.violation(&sig, &what, json!({"seed": args.seed, "case": case, "table": table_desc, "what": what}));
+                        }
+                    }
+                }
+                Err(e) => {
+                    report.count("page_stats_unreadable", 1);
+                    if report.counter("page_stats_unreadable") <= 2 {
+                        report.sample(json!({"page_stats_unreadable": e}));
+                    }
+                }
+            }
+            // ---- (i) stats on == stats off == reference
+            let df = match DfRef::new(m.to_batch()) {
+                Ok(d) => d,
+                Err(e) => {
+                    report.harness_error(&format!("case {case}: datafusion reference: {e}"));
+                    return;
+                }
+            };
+            let cols: Vec<usize> = (0..m.cols.len()).collect();
+            let gen = PredGen::new(m, GenCfg { cols: cols.clone(), focus: (1..m.cols.len()).collect(), max_depth: 2, hostile_literals: true, allow_colcmp: false });
+            for pi in 0..preds_per_table {
+                if !report.time_left() {
+                    break;
+                }
+                let pred = if rng.chance(1, 2) { gen.leaf(&mut rng) } else { gen.gen_top(&mut rng) };
+                let sql = pred.sql(&m.cols);
+                let ids_exp = match reference(&pred, &sql, m, &df).await {
+                    RefOutcome::Ok { ids, float_disagree, .. } => {
+                        if float_disagree {
+                            report.count("float_special_decided_by_datafusion", 1);
+                        }
+                        ids
+                    }
+                    RefOutcome::HarnessError(e) => {
+                        report.harness_error(&format!("case {case} p{pi}: {e}; table {table_desc}"));
+                        continue;
+                    }
+                };
+                let q = Query { filter: Some(sql.clone()), ..Default::default() };
+                let on = run_scan(&ds, &q, &Knobs { use_stats: Some(true), ..Default::default() }).await;
+                let off = run_scan(&ds, &q, &Knobs { use_stats: Some(false), ..Default::default() }).await;
+                let witness = |detail: serde_json::Value| json!({"seed": args.seed, "case": case, "pred_index": pi, "table": table_desc, "filter": sql, "detail": detail});
+                let (mut on, off) = match (on, off) {
+                    (Ok(a), Ok(b)) => (a, b),
+                    (Err(ScanErr::Rejected(_)), Err(ScanErr::Rejected(_))) => {
+                        report.rejected();
+                        report.case(None);
+                        continue;
+                    }
+                    (a, b) => {
+                        let d = format!("use_stats(true): {:?} / use_stats(false): {:?}", a.as_ref().err(), b.as_ref().err());
+                        if matches!(a, Err(ScanErr::Timeout)) || matches!(b, Err(ScanErr::Timeout)) {
+                            report.inconclusive(&format!("case {case}: scan timed out"));
+                        } else if !selftest {
+                            report.violation(
+                                "legacy-scan-outcome-depends-on-use-stats-or-fails",
+                                &d.chars().take(300).collect::<String>(),
+                                witness(json!({"outcomes": d})),
+                            );
+                        }
+                        report.case(None);
+                        continue;
+                    }
+                };
+                report.count("scans", 2);
+                report.count("rows_compared", (on.rows.len() + off.rows.len()) as u64);
+                let selective = !ids_exp.is_empty() && ids_exp.len() < m.len();
+                let nontrivial = selective && pages >= 2;
+                if selftest {
+                    if nontrivial && on.rows.pop().is_some() {
+                        st_total.fetch_add(1, AO::Relaxed);
+                        let a: BTreeSet<i64> = on.ids().into_iter().collect();
+                        let b: BTreeSet<i64> = off.ids().into_iter().collect();
+                        if a != b {
+                            st_fired.fetch_add(1, AO::Relaxed);
+                        }
+                    }
+                    report.case(None);
+                    continue;
+                }
+                let a: BTreeSet<i64> = on.ids().into_iter().collect();
+                let b: BTreeSet<i64> = off.ids().into_iter().collect();
+                let exp = Expected { set: ids_exp.clone(), seq: None, limit: None, offset: None };
+                if a != b {
+                    let (extra, missing) = set_diff(&a, &b);
+                    let mut pcols = BTreeSet::new();
+                    pred.columns(&mut pcols);
+                    let null_in_pred_col = |id: &i64| m.rows.get(id).map(|r| pcols.iter().any(|c| r[*c].is_null())).unwrap_or(false);
+                    let sig = if extra.iter().chain(missing.iter()).all(null_in_pred_col) {
+                        // a page holding NULLs and one distinct non-null value gets the guarantee
+                        // MaybeNull{[v,v]}, which DataFusion's simplifier collapses to the constant v
+                        NULL_PAGE_SIG.to_string()
+                    } else if crate::c16::nan_involved(&pred, m) {
+                        legacy_stats_sig(&pred, m)
+                    } else {
+                        format!(
+                            "legacy-stats-pruning-changes-result-{}",
+                            match (extra.is_empty(), missing.is_empty()) {
+                                (false, true) => "adds-rows",
+                                (true, false) => "drops-rows",
+                                _ => "adds-and-drops-rows",
+                            }
+                        )
+                    };
+                    let show = |ids: &[i64]| -> Vec<String> { ids.iter().take(5).map(|i| m.rows.get(i).map(vmon::table::render_row).unwrap_or_default()).collect() };
+                    report.violation(
+                        &sig,
+                        &format!("use_stats(true) returns {} rows, use_stats(false) {} (reference {}): {} only with stats, {} only without", a.len(), b.len(), ids_exp.len(), extra.len(), missing.len()),
+                        witness(json!({"only_with_stats": trunc(&extra, 20), "only_without_stats": trunc(&missing, 20), "rows_only_with_stats": show(&extra), "rows_only_without_stats": show(&missing),
+                                       "reference_equals_without_stats": b == ids_exp})),
+                    );
+                } else if let Some(v) = judge(&off, &exp, m) {
+                    // pruning is not involved (both scans agree): a legacy read/filter deviation, outside C29
+                    report.count("legacy_filter_differs_from_reference_with_and_without_stats", 1);
+                    if report.counter("legacy_filter_differs_from_reference_with_and_without_stats") <= 3 {
+                        report.sample(json!({"not_a_pruning_matter": v.what, "filter": sql, "table": table_desc, "detail": v.detail}));
+                    }
+                }
+                report.case(if nontrivial { Some(fnv_str(&format!("{}|{}", spec.describe(), pred.shape(&m.cols)))) } else { None });
+                if selective {
+                    report.count("selective_predicates", 1);
+                }
+                let pick = rng.chance(1, 80);
+                if nontrivial && pick && report.want_sample() {
+                    report.sample(json!({"table": table_desc, "filter": sql, "matching": ids_exp.len(), "rows": m.len(), "with_stats": a.len(), "without_stats": b.len()}));
+                }
+            }
+        });
+    });
+    if selftest {
+        let (f, t) = (st_fired.load(AO::Relaxed), st_total.load(AO::Relaxed));
+        println!("SELFTEST C29 oracle fired on {f} of {t} corrupted observations");
+        return if t > 0 && f == t { 0 } else { 2 };
+    }
+    report.finish()
 }
